@@ -82,7 +82,8 @@ func (b *exampleBuilder) buildExampleForObjectNode(node *ischema.ObjectNode) ([]
 		}
 	}
 	buf.WriteByte('}')
-	return buf.Bytes(), nil
+	// The buffer goes back to the pool: hand out a copy, not its storage.
+	return append([]byte(nil), buf.Bytes()...), nil
 }
 
 func (b *exampleBuilder) buildObjectKey(k ischema.ObjectNodeKey) ([]byte, error) {
@@ -129,7 +130,8 @@ func (b *exampleBuilder) buildExampleForArrayNode(node *ischema.ArrayNode) ([]by
 		}
 	}
 	buf.WriteByte(']')
-	return buf.Bytes(), nil
+	// The buffer goes back to the pool: hand out a copy, not its storage.
+	return append([]byte(nil), buf.Bytes()...), nil
 }
 
 func (b *exampleBuilder) buildExampleForMixedValueNode(node *ischema.MixedValueNode) ([]byte, error) {
@@ -210,7 +212,8 @@ func buildExampleForObjectNode(
 		}
 	}
 	b.WriteByte('}')
-	return b.Bytes(), nil
+	// The buffer goes back to the pool: hand out a copy, not its storage.
+	return append([]byte(nil), b.Bytes()...), nil
 }
 
 func buildExampleForArrayNode(
@@ -238,7 +241,8 @@ func buildExampleForArrayNode(
 		}
 	}
 	b.WriteByte(']')
-	return b.Bytes(), nil
+	// The buffer goes back to the pool: hand out a copy, not its storage.
+	return append([]byte(nil), b.Bytes()...), nil
 }
 
 var exampleBufferPool = sync.NewBufferPool(512)
